@@ -31,15 +31,16 @@ theorem one_reply_per_request (cfg : Cfg) (eval : Int → Name → Name → Opti
     (runQ cfg eval c qs).length = qs.length :=
   Proofs.EvalCache.one_reply_per_request cfg eval c qs
 
-/-- Freshness and no cross-talk, for a positive cache lifetime: every reply is the evaluation of
+/-- Freshness and no cross-talk, for EVERY cache lifetime (0 included, since the repair of D16: lifetime 0
+    means no caching): every reply is the evaluation of
     storage *for the request's own cluster and group* at some instant no longer ago than the cache
     lifetime.  In particular it is NOTFOUND exactly when storage held no live data for that group at
     that instant. -/
-theorem freshness (cfg : Cfg) (hpos : cfg.expire > 0) (eval : Int → Name → Name → Option R)
+theorem freshness (cfg : Cfg) (hnn : cfg.expire ≥ 0) (eval : Int → Name → Name → Option R)
     (qs : List Req) (hmono : TimeMono qs) (i : Nat) (q : Req) (rep : Reply R)
     (hq : qs[i]? = some q) (hr : (runQ cfg eval [] qs)[i]? = some rep) :
     ∃ t, q.now - cfg.expire * 1000 ≤ t ∧ t ≤ q.now ∧ rep.result = eval t q.cluster q.group :=
-  Proofs.EvalCache.freshness cfg hpos eval qs hmono i q rep hq hr
+  Proofs.EvalCache.freshness cfg hnn eval qs hmono i q rep hq hr
 
 /-- Serving a filtered view never changes what later requests see: the cache after a problems-only
     request equals the cache after the same request for the full view. -/
@@ -49,12 +50,14 @@ theorem filtered_view_pure (cfg : Cfg) (c : Cache R) (now : Int) (cluster group 
       (getConsumerStatus cfg c now cluster group eval id).1 :=
   Proofs.EvalCache.filtered_view_pure cfg c now cluster group eval view
 
-/-- Known finding (expire-cache = 0): a good result is cached forever — the freshness hypothesis
-    `cfg.expire > 0` cannot be dropped.  Storage answers 1 at time 0 and 2 from time 1 on; a request
-    a million seconds later is still answered 1. -/
-theorem expire_zero_witness :
+/-- D16 (repaired): with expire-cache = 0 nothing is served from the cache once the clock has moved —
+    storage answers 1 at time 0 and 2 from time 1 on; a request any time later is answered 2.  (Before the
+    repair the zero duration reached goswarm, which reads it as "never expires": the answer stayed 1 for
+    ever.) -/
+theorem zero_lifetime_is_no_caching :
     let eval : Int → Name → Name → Option Nat := fun t _ _ => if t < 1 then some 1 else some 2
-    (runQ { expire := 0 } eval [] [⟨0, ['c'], ['g']⟩, ⟨1000000000, ['c'], ['g']⟩]).map (·.result) = [some 1, some 1] := by
+    (runQ { expire := 0 } eval [] [⟨0, ['c'], ['g']⟩, ⟨1, ['c'], ['g']⟩, ⟨1000000000, ['c'], ['g']⟩]).map (·.result) =
+      [some 1, some 2, some 2] := by
   decide
 
 /-! ### Non-vacuity -/
